@@ -268,6 +268,8 @@ class Registry:
                     skip = 2 if (len(call.args) > 1 and isinstance(call.args[0], ast.Constant) and
                                  str(call.args[0].value).endswith('.py')) else 1
                     self.invariants.setdefault((rel, cname), []).extend(call.args[skip:])
+                elif fn == 'fixup':
+                    pass
                 elif fn == 'formatting':
                     for a_ in call.args:
                         v_ = ast.literal_eval(a_)
